@@ -38,7 +38,15 @@ type kcase struct {
 	Repr  string `json:"repr,omitempty"` // decode
 	Tape  string `json:"tape,omitempty"` // newkeypair: the random bytes crypto/rand will deliver
 	Ell   bool   `json:"ell,omitempty"`
-	Tag   string `json:"tag"`
+	// outparam: a chain of key generations written into the SAME caller-supplied output arrays
+	Fill  string  `json:"fill,omitempty"` // initial contents of the public-key and representative arrays (64 bytes hex)
+	Chain []kstep `json:"chain,omitempty"`
+	Tag   string  `json:"tag"`
+}
+
+type kstep struct {
+	Priv  string `json:"priv"`
+	Tweak int    `json:"tweak"`
 }
 
 var (
@@ -401,6 +409,94 @@ func runNewKeypair(r *vlib.Run, d *vlib.Driver, c kcase, cs *cosets) {
 	}
 }
 
+// runOutParam — output independence of the out-parameter APIs. The Lean model's `scalarBaseMult` and
+// `representativeToPublicKey` are pure functions of (private key, tweak) resp. the representative, so
+// the model side needs nothing: whatever the caller's arrays held before the call, on success they must
+// hold exactly the model's (public key, representative). For a candidate WITHOUT a representative the Go
+// code returns false before writing anything (uToRepresentative returns early, ScalarBaseMult skips the
+// copy of the public key): both arrays are left untouched — that is what is required here.
+// The same is done for RepresentativeToPublicKey (also with publicKey aliasing representative) and for
+// curve25519.ScalarMult into a reused array (ntor reuses one `exp` array for both DH results).
+func runOutParam(r *vlib.Run, d *vlib.Driver, c kcase) {
+	var pub, repr [32]byte
+	fill := vlib.UnHex(c.Fill)
+	copy(pub[:], fill[:32])
+	copy(repr[:], fill[32:])
+	r.Case(fmt.Sprintf("outparam %s %v", c.Fill, c.Chain), true)
+	r.Count("outparam-fill", c.Tag)
+	for i, st := range c.Chain {
+		priv := arr32(vlib.UnHex(st.Priv))
+		tweak := byte(st.Tweak)
+		beforePub, beforeRepr := pub, repr
+		ok := ntor.VerifScalarBaseMultInto(&pub, &repr, priv, tweak)
+		where := fmt.Sprintf("call %d/%d of ScalarBaseMult(priv %s, tweak %d) into arrays holding pub=%x repr=%x", i+1, len(c.Chain), st.Priv, st.Tweak, beforePub, beforeRepr)
+		model := d.Call("ell.sbm %s %d", st.Priv, st.Tweak)
+		r.Validated(1)
+		fpub, frepr, fok := ntor.VerifScalarBaseMult(priv, tweak) // fresh zeroed arrays
+		r.Count("outparam-step", map[bool]string{true: "accepted", false: "rejected"}[ok])
+		if ok != fok {
+			r.Violate("keygen-depends-on-output-array", "impl-oracle", where+fmt.Sprintf(": returned %v, with fresh arrays %v", ok, fok), c)
+			continue
+		}
+		if ok {
+			got := vlib.Hex(pub[:]) + " " + vlib.Hex(repr[:])
+			if pub != fpub || repr != frepr {
+				r.Violate("keygen-depends-on-output-array", "impl-oracle",
+					where+fmt.Sprintf(": result pub=%x repr=%x, with fresh zeroed arrays pub=%x repr=%x", pub, repr, fpub, frepr), c)
+			}
+			// S: the clauses of the property on what the caller now holds
+			var rp ntor.Representative
+			copy(rp[:], repr[:])
+			if dec := rp.ToPublic(); *dec.Bytes() != pub {
+				r.Violate("roundtrip-decode-differs", "impl-oracle", where+fmt.Sprintf(": public key %x but the representative %x decodes to %x", pub, repr, dec.Bytes()[:]), c)
+			}
+			if repr[31]&0xc0 != tweak&0xc0 {
+				r.Violate("encode-top-bits-not-from-tweak", "impl-oracle", where+fmt.Sprintf(": representative byte 31 = %#x for tweak %#x", repr[31], tweak), c)
+			}
+			if model != got {
+				r.Violate("model-impl-disagree-keygen", "correspondence", where+fmt.Sprintf(": implementation %q, Lean model %q", got, model), c)
+			}
+		} else {
+			if model != "none" {
+				r.Violate("model-impl-disagree-keygen", "correspondence", where+fmt.Sprintf(": implementation reports no representative, Lean model %q", model), c)
+			}
+			if pub != beforePub || repr != beforeRepr {
+				r.Violate("rejected-candidate-modifies-output", "correspondence",
+					where+fmt.Sprintf(": no representative, yet the arrays now hold pub=%x repr=%x (the code under test returns before writing)", pub, repr), c)
+			}
+		}
+		// RepresentativeToPublicKey into a pre-filled array, and with publicKey aliasing representative
+		src := repr
+		if !ok {
+			copy(src[:], vlib.UnHex(st.Priv)) // any string decodes
+		}
+		want := ntor.VerifRepresentativeToPublic(&src)
+		out := beforeRepr // arbitrary prior contents
+		srcCopy := src
+		ntor.VerifRepresentativeToPublicInto(&out, &srcCopy)
+		alias := src
+		ntor.VerifRepresentativeToPublicInto(&alias, &alias)
+		if out != want || alias != want || srcCopy != src {
+			r.Violate("decode-depends-on-output-array", "impl-oracle",
+				fmt.Sprintf("RepresentativeToPublicKey(%x): fresh array %x, pre-filled array %x, output aliasing the input %x, input afterwards %x", src, want, out, alias, srcCopy), c)
+		}
+		if m := d.Call("ell.r2p %s", vlib.Hex(src[:])); m != vlib.Hex(want[:]) {
+			r.Violate("model-impl-disagree-decode", "correspondence", fmt.Sprintf("ell.r2p %x: implementation %x, Lean model %s", src, want, m), c)
+		}
+		// curve25519.ScalarMult / ScalarBaseMult into a reused destination
+		dst := beforePub
+		var fresh, fresh2 [32]byte
+		curve25519.ScalarMult(&dst, priv, &src)   //nolint:staticcheck
+		curve25519.ScalarMult(&fresh, priv, &src) //nolint:staticcheck
+		dst2 := dst
+		curve25519.ScalarBaseMult(&dst2, priv)
+		curve25519.ScalarBaseMult(&fresh2, priv)
+		if dst != fresh || dst2 != fresh2 {
+			r.Violate("x25519-depends-on-output-array", "impl-oracle", fmt.Sprintf("curve25519.ScalarMult/ScalarBaseMult(%s, %x) into a reused array: %x/%x, fresh %x/%x", st.Priv, src, dst, dst2, fresh, fresh2), c)
+		}
+	}
+}
+
 func runCase(r *vlib.Run, d *vlib.Driver, c kcase, cs *cosets) {
 	switch c.Kind {
 	case "keygen":
@@ -409,6 +505,8 @@ func runCase(r *vlib.Run, d *vlib.Driver, c kcase, cs *cosets) {
 		runDecode(r, d, c)
 	case "newkeypair":
 		runNewKeypair(r, d, c, cs)
+	case "outparam":
+		runOutParam(r, d, c)
 	}
 }
 
@@ -519,6 +617,44 @@ func generate(r *vlib.Run) []kcase {
 	}
 	cs = append(cs, kcase{Kind: "newkeypair", Tape: h(rng.Bytes(31)), Ell: true, Tag: "short-tape"})
 
+	// output independence: chains of key generations (accepted and rejected candidates mixed) written into
+	// the same caller-supplied arrays, which start out as 0x00 / 0xff / random / a previous output
+	{
+		var acc, rej []kstep
+		for len(acc) < 120 || len(rej) < 120 {
+			k, t := rng.Bytes(32), rng.Intn(256)
+			if _, _, ok := ntor.VerifScalarBaseMult(arr32(k), byte(t)); ok {
+				acc = append(acc, kstep{h(k), t})
+			} else {
+				rej = append(rej, kstep{h(k), t})
+			}
+		}
+		for i := 0; i < r.Scale(160, 3000); i++ {
+			c := kcase{Kind: "outparam"}
+			switch i % 4 {
+			case 0:
+				c.Fill, c.Tag = h(make([]byte, 64)), "zero"
+			case 1:
+				c.Fill, c.Tag = h(bytes.Repeat([]byte{0xff}, 64)), "0xff"
+			case 2:
+				c.Fill, c.Tag = h(rng.Bytes(64)), "random"
+			case 3:
+				p, rp, _ := ntor.VerifScalarBaseMult(arr32(vlib.UnHex(acc[rng.Intn(len(acc))].Priv)), byte(rng.Intn(256)))
+				c.Fill, c.Tag = h(append(p[:], rp[:]...)), "previous-output"
+			}
+			for j, n := 0, rng.Range(2, 6); j < n; j++ {
+				if rng.Intn(3) == 0 {
+					c.Chain = append(c.Chain, rej[rng.Intn(len(rej))])
+				} else {
+					st := acc[rng.Intn(len(acc))]
+					st.Tweak = rng.Intn(256) // acceptance does not depend on the tweak; vary preimage choice and pad bits
+					c.Chain = append(c.Chain, st)
+				}
+			}
+			cs = append(cs, c)
+		}
+	}
+
 	// steered tapes: k draws whose SHA-512-derived key has NO representative, then one that has — the
 	// rejection loop must keep drawing however long the run of rejections is (judged with the real code)
 	var rejected, accepted [][]byte
@@ -555,7 +691,7 @@ func generate(r *vlib.Run) []kcase {
 
 func main() {
 	r := vlib.NewRun("C07")
-	r.Rule = "cases: keygen (private key, tweak, peer key), decode (32-byte string, all four settings of bits 254/255), newkeypair (random tape); non-trivial = keygen that returns a representative (round trip, DH and top-bit clauses evaluated), every decode case, every NewKeypair run; distinct by canonical case text"
+	r.Rule = "cases: keygen (private key, tweak, peer key), outparam (2-6 key generations, accepted and rejected, written into the same caller-supplied output arrays pre-filled with 0x00/0xff/random bytes/a previous output; also RepresentativeToPublicKey and curve25519 into reused arrays), decode (32-byte string, all four settings of bits 254/255), newkeypair (random tape); non-trivial = keygen that returns a representative (round trip, DH and top-bit clauses evaluated), every decode case, every NewKeypair run; distinct by canonical case text"
 	r.Assumptions = []string{
 		"the Edwards group law and the Montgomery ladder of the libraries are modelled, not verified (the generated u-coordinate being on the curve is a hypothesis of the round-trip theorem; sampled here)",
 		"constant-time behaviour is out of scope"}
